@@ -68,6 +68,7 @@ theorem inject_den : (o : Obj) → ∀ st : St, ∃ v st', inject o st = (some v
   | .str _, st => ⟨_, st, by unfold inject; rfl, Pre.refl _, fun k _ => denote_leaf _ _ _⟩
   | .bytes _, st => ⟨_, st, by unfold inject; rfl, Pre.refl _, fun k _ => denote_leaf _ _ _⟩
   | .enumM _ _, st => ⟨_, st, by unfold inject; rfl, Pre.refl _, fun k _ => denote_leaf _ _ _⟩
+  | .mdict _ _, st => ⟨_, st, by unfold inject; rfl, Pre.refl _, fun k _ => denote_leaf _ _ _⟩
   | .coll ck xs, st => by
     obtain ⟨ys, st1, h1, hp1, hd1⟩ := injectL_den xs st
     refine ⟨.ref st1.cells.length, (alloc (.coll ck ys) st1).2, ?_, hp1.trans (Pre.append _ _), fun k hk => ?_⟩
